@@ -282,6 +282,7 @@ type c14Run struct {
 	samples     []interface{}
 	tainted     bool
 	retries     int
+	retryWhy    []string
 	nondet      int
 	incomplete  []string
 }
@@ -326,8 +327,57 @@ func decodeChoices(s string) []int {
 }
 
 // execOnce builds a fresh world, runs the prefix sequentially and the thread bodies under the interleaving scheduler.
+// c14Baseline is the number of goroutines of this process while no world exists. The settle barrier of the
+// interleaving scheduler counts goroutines, so a goroutine of the previous world that is still on its way out while the
+// next execution starts would make the barrier open one goroutine early (seen as "replay divergence" under load):
+// every execution therefore starts only after the count is back at the baseline.
+var c14Baseline = -1
+var c14Timing = os.Getenv("VERIF_TIMING") != ""
+
+func c14WaitBaseline(scn *world.Scenario) {
+	if c14Baseline < 0 {
+		// the first world of a process starts goroutines that stay (lazily initialised singletons of the core): build
+		// and drop one world before measuring
+		if w, err := world.New(scn); err == nil {
+			w.Close()
+		}
+		last, stable := runtime.NumGoroutine(), 0
+		for stable < 20 {
+			time.Sleep(500 * time.Microsecond)
+			if n := runtime.NumGoroutine(); n == last {
+				stable++
+			} else {
+				last, stable = n, 0
+			}
+		}
+		c14Baseline = last
+		return
+	}
+	deadline := time.Now().Add(5 * time.Second)
+	for runtime.NumGoroutine() > c14Baseline {
+		if time.Now().After(deadline) {
+			// goroutines that never end (a leak that is there to stay): they are part of the baseline from now on
+			c14Baseline = runtime.NumGoroutine()
+			if c14Timing {
+				fmt.Fprintf(os.Stderr, "c14: baseline raised to %d\n", c14Baseline)
+			}
+			return
+		}
+		time.Sleep(50 * time.Microsecond)
+	}
+}
+
 func c14Exec(sc c14Scenario, prefix []int) (*ilv.Result, string, []mc.Violation, string) {
+	t0 := time.Now()
+	c14WaitBaseline(sc.Scn)
+	t1 := time.Now()
 	w, err := world.New(sc.Scn)
+	t2 := time.Now()
+	defer func() {
+		if c14Timing {
+			fmt.Fprintf(os.Stderr, "c14 timing: baseline %v new %v rest %v\n", t1.Sub(t0), t2.Sub(t1), time.Since(t2))
+		}
+	}()
 	if err != nil {
 		return &ilv.Result{Harness: "world: " + err.Error()}, "", nil, ""
 	}
@@ -347,20 +397,23 @@ func c14Exec(sc c14Scenario, prefix []int) (*ilv.Result, string, []mc.Violation,
 		})
 		names = append(names, fmt.Sprintf("T%d:%s", i, strings.Join(nm, "+")))
 	}
+	t3 := time.Now()
+	nWorld := runtime.NumGoroutine() // this goroutine, the process baseline and what the world keeps running
 	res := ilv.Run(bodies, names, prefix, 20*time.Second)
+	if c14Timing {
+		fmt.Fprintf(os.Stderr, "c14 timing: run %v points %d\n", time.Since(t3), len(res.Points))
+	}
 	if res.Deadlock != "" || res.Harness != "" {
 		// the instance is poisoned (goroutines blocked for ever): it is not closed, the caller stops using this process
 		return res, "deadlock-or-harness", nil, ""
 	}
-	// settle, then the invariants on the final state
+	// settle (goroutines the bodies started and nobody waited for), then the invariants on the final state
 	deadline := time.Now().Add(10 * time.Second)
-	last, stable := runtime.NumGoroutine(), 0
-	for stable < 3 && time.Now().Before(deadline) {
-		time.Sleep(200 * time.Microsecond)
-		if n := runtime.NumGoroutine(); n == last {
-			stable++
+	for spins := 0; runtime.NumGoroutine() > nWorld && time.Now().Before(deadline); spins++ {
+		if spins < 200 {
+			runtime.Gosched()
 		} else {
-			last, stable = n, 0
+			time.Sleep(100 * time.Microsecond)
 		}
 	}
 	outbound := w.Rec.Drain()
@@ -428,6 +481,9 @@ func c14Shard(tier string, shard, n int) *CustomResult {
 			res, digest, viol, _ := c14Exec(sc, prefix)
 			for attempt := 0; attempt < 3 && res.Harness != "" && (strings.HasPrefix(res.Harness, "did not settle") || strings.HasPrefix(res.Harness, "replay divergence")); attempt++ {
 				// harness trouble is never a verdict: give the stray goroutines time to finish and run the schedule again
+				if len(run.retryWhy) < 20 {
+					run.retryWhy = append(run.retryWhy, sc.Name+": "+res.Harness)
+				}
 				time.Sleep(200 * time.Millisecond)
 				res, digest, viol, _ = c14Exec(sc, prefix)
 				run.retries++
@@ -488,6 +544,7 @@ func c14Shard(tier string, shard, n int) *CustomResult {
 		cov["executions_"+k] = c
 	}
 	cov["executions_retried_after_harness_trouble"] = run.retries
+	cov["retry_reasons"] = run.retryWhy
 	cov["schedules_skipped_nondeterministic_replay"] = run.nondet
 	for _, n := range run.incomplete {
 		cov["budget_hit_in_"+n] = 1
@@ -616,4 +673,43 @@ func init() {
 	ShardFuncs["c14"] = c14Shard
 	registerCheck(&CheckDef{Prop: "C14", Level: "model_checking", Technique: "stateless model checking of the implementation: depth-first enumeration of all lock-granularity interleavings of the real goroutine bodies under a cooperative scheduler, preemption bounded", Custom: checkC14, Replay: replayC14,
 		Assumptions: []string{"scheduling points are the acquisitions of pkg/locking mutexes; unlocked shared accesses and memory-model effects are outside (race detector territory)", "2-3 threads with 1-2 operations each per scenario"}})
+}
+
+
+// C14Determinism runs the default schedule (or the given prefix) of one scenario n times and reports the first
+// scheduling point at which two runs differ (debugging aid).
+func C14Determinism(name string, n int, prefix []int) {
+	ilv.Trace = true
+	for _, sc := range c14Scenarios() {
+		if !strings.Contains(sc.Name, name) {
+			continue
+		}
+		var first *ilv.Result
+		for i := 0; i < n; i++ {
+			res, _, _, _ := c14Exec(sc, prefix)
+			if res.Harness != "" {
+				fmt.Printf("run %d: harness: %s\n", i, res.Harness)
+				continue
+			}
+			if first == nil {
+				first = res
+				fmt.Printf("%s: %d points, %d threads\n", sc.Name, len(res.Points), res.Threads)
+				continue
+			}
+			for k := 0; k < len(first.Points) || k < len(res.Points); k++ {
+				if k >= len(first.Points) || k >= len(res.Points) || fmt.Sprint(first.Points[k].Enabled) != fmt.Sprint(res.Points[k].Enabled) || first.Points[k].Desc != res.Points[k].Desc {
+					fmt.Printf("run %d differs at point %d (of %d / %d)\n", i, k, len(first.Points), len(res.Points))
+					for q := k - 2; q <= k+1; q++ {
+						if q >= 0 && q < len(first.Points) {
+							fmt.Printf("  first[%d] en=%v %s\n", q, first.Points[q].Enabled, first.Points[q].Desc)
+						}
+						if q >= 0 && q < len(res.Points) {
+							fmt.Printf("  this [%d] en=%v %s\n", q, res.Points[q].Enabled, res.Points[q].Desc)
+						}
+					}
+					break
+				}
+			}
+		}
+	}
 }
